@@ -42,10 +42,13 @@ Fixpoint update_nth {A} (n : nat) (f : A -> A) (l : list A) : list A :=
 Definition upd_node (u : update) (n : wnode) : wnode :=
   mkNode (n_id n) (u_ver u) (u_cs u) (u_lat u) (u_lon u).
 
+(* orb.Orientation is an int8: arithmetic on it wraps *)
+Definition wrap8 (z : Z) : Z := (z + 128) mod 256 - 128.
+
 (* relation.go applyUpdate: the four assignments and  if u.Reverse { Orientation *= -1 } *)
 Definition upd_member (u : update) (m : member) : member :=
   mkMember (m_type m) (m_ref m) (m_role m) (u_ver u) (u_cs u) (u_lat u) (u_lon u)
-           (if u_rev u then - m_orient m else m_orient m).
+           (if u_rev u then wrap8 (- m_orient m) else m_orient m).
 
 Section Apply.
   Context {C : Type}.
@@ -83,6 +86,21 @@ End Apply.
 
 Arguments loop_res : clear implicits.
 Arguments ares : clear implicits.
+
+(* applyUpdate on its own (one iteration of the loop above that is not skipped), the form in
+   which the translator regenerates it from way.go / relation.go (C15/GenOk.v) *)
+Inductive au_res (C : Type) := AU_Ok (cs : list C) | AU_Err (idx : Z) | AU_Panic.
+Arguments AU_Ok {C} _.
+Arguments AU_Err {C} _.
+
+Definition apply_update {C} (upd : update -> C -> C) (cs : list C) (u : update) : au_res C :=
+  if Z.of_nat (length cs) <=? u_index u then AU_Err (u_index u)
+  else if u_index u <? 0 then AU_Panic C
+  else AU_Ok (update_nth (Z.to_nat (u_index u)) (upd u) cs).
+
+(* support for generated code: Go's bounds-checked  l[i] = f(l[i]) ; k *)
+Definition set_at {C R} (l : list C) (i : Z) (f : C -> C) (panic : R) (k : list C -> R) : R :=
+  if (i <? 0) || (Z.of_nat (length l) <=? i) then panic else k (update_nth (Z.to_nat i) f l).
 
 Definition way_apply := apply_updates_up_to upd_node.
 Definition rel_apply := apply_updates_up_to upd_member.
